@@ -773,6 +773,83 @@ def check_reconfigure(run, vol0, steps):
             return
 
 
+def check_tape_disjoint(run, cfg, inject=None, j=None, newval=None):
+    """vertex and direction of one event are functions of DISJOINT tape entries: replacing a single uniform of the
+    tape may change the vertex, or the direction, or neither (type / interaction draws) - never both"""
+    cfg = dict(cfg, shadow=False, sec=False)
+    gen, ev, err, tape, passes = run_event(run, cfg, inject=inject)
+    if ev is None:
+        return
+    us = list(tape.us)
+    p0 = ev.roots[0]
+    v0, d0 = np.array(p0.vertex, float), np.array(p0.direction, float)
+    dep_v, dep_d = set(), set()
+    for jj in ([j] if j is not None else range(min(len(us), 8))):
+        alt = list(us)
+        alt[jj] = newval if newval is not None else (us[jj] + 0.37) % 1.0
+        gen2, ev2, err2, tape2, _ = run_event(run, cfg, inject=alt)
+        if ev2 is None:
+            continue
+        p1 = ev2.roots[0]
+        cv = not np.array_equal(np.array(p1.vertex, float), v0)
+        cd = not np.array_equal(np.array(p1.direction, float), d0)
+        if cv:
+            dep_v.add(jj)
+        if cd:
+            dep_d.add(jj)
+        if cv and cd:
+            run.fail_input("tape-disjoint", {"config": {k: (list(cfg[k]) if isinstance(cfg[k], tuple) else cfg[k]) for k in cfg},
+                                             "uniforms": us, "entry": jj, "new_value": alt[jj]},
+                           observed={"vertex": [v0.tolist(), [float(x) for x in p1.vertex]],
+                                     "direction": [d0.tolist(), [float(x) for x in p1.direction]]},
+                           what="replacing tape entry %d alone changes BOTH the vertex and the direction: they are not drawn "
+                                "independently" % jj)
+            return
+    if j is None and not (len(dep_v) == 3 and len(dep_d) == 2):
+        run.fail_input("tape-disjoint", {"config": {k: (list(cfg[k]) if isinstance(cfg[k], tuple) else cfg[k]) for k in cfg},
+                                         "uniforms": us, "entry": None, "new_value": None},
+                       observed={"vertex_depends_on": sorted(dep_v), "direction_depends_on": sorted(dep_d)},
+                       what="the vertex must depend on exactly three tape entries and the direction on exactly two others")
+
+
+def check_joint(run, vol, n, seed):
+    """JOINT statistics of create_event() on one generator (real numpy randomness, seeded): every vertex coordinate is
+    uncorrelated with every direction component, and the mean direction inside sub-volumes (upper / lower half, inner /
+    outer part) vanishes.  Thresholds: |z| < 6.5 per test (a correct tree fails with probability < 1e-8 per run)."""
+    np.random.seed(seed)
+    gen = make_gen(vol, 1e6)
+    V, D = np.empty((n, 3)), np.empty((n, 3))
+    for i in range(n):
+        p = gen.create_event().roots[0]
+        V[i], D[i] = p.vertex, p.direction
+    bad = []
+    zmax = 6.5
+    for a in range(3):
+        for b in range(3):
+            x, y = V[:, a] - V[:, a].mean(), D[:, b] - D[:, b].mean()
+            den = math.sqrt(float((x * x).sum() * (y * y).sum()))
+            if den > 0:
+                z = float((x * y).sum()) / den * math.sqrt(n)
+                if abs(z) > zmax:
+                    bad.append("vertex[%d] and direction[%d] correlated: r*sqrt(n) = %.1f" % (a, b, z))
+    rad = np.hypot(V[:, 0], V[:, 1])
+    depth_mid = -(vol[2] if vol[0] == "cyl" else vol[3]) / 2
+    subsets = {"upper half": V[:, 2] > depth_mid, "lower half": V[:, 2] <= depth_mid,
+               "inner part": rad < np.median(rad), "outer part": rad >= np.median(rad),
+               "x > 0": V[:, 0] > 0, "y > 0": V[:, 1] > 0}
+    for name, m in subsets.items():
+        k = int(m.sum())
+        if k < 50:
+            continue
+        for b in range(3):
+            z = float(D[m, b].mean()) / (math.sqrt(1 / 3) / math.sqrt(k))     # Var(component of an isotropic unit vector) = 1/3
+            if abs(z) > zmax:
+                bad.append("mean direction[%d] in the %s is %.3f (%.1f sigma)" % (b, name, D[m, b].mean(), z))
+    if bad:
+        run.fail_input("joint", {"volume": list(vol), "n": n, "numpy_seed": seed}, observed=bad[:6],
+                       what="vertex and direction of the thrown neutrinos are not independent: " + "; ".join(bad[:3]))
+
+
 def ks_stat(xs):
     xs = np.sort(np.asarray(xs))
     n = len(xs)
@@ -813,6 +890,16 @@ def search(run, deep):
         run.case(("oracle-list-history", n, loop, tuple(ops)))
         run.count("oracle_list_history_sets", sum(1 for o in ops if o[0] == "s"))
         check_list_history(run, n, loop, ops)
+    # vertex and direction: disjoint tape entries; joint statistics compatible with independence
+    for vol in (("cyl", 10 ** rng.uniform(1.5, 3.5), 10 ** rng.uniform(1.5, 3.5)),
+                ("box", 10 ** rng.uniform(1.5, 3), 10 ** rng.uniform(2, 3.5), 10 ** rng.uniform(1.5, 3.5))):
+        seed = rng.getrandbits(31)
+        run.case(("oracle-joint", vol, seed))
+        check_joint(run, vol, 6000 if deep else 1500, seed)
+    for i in range(6 * mult):
+        cfg = draw_event_cfg(run)
+        run.case(("oracle-tape-disjoint", str(cfg)))
+        check_tape_disjoint(run, cfg)
     # query - mutate - query: attributes of one generator reassigned between draws
     for i in range(15 * mult):
         vol = draw_volume(rng)
@@ -924,6 +1011,12 @@ def replay(run, data):
         check_exit_inputs(run, tuple(i["volume"]), i["vertex"], i["direction"])
     elif k == "list":
         check_list(run, i["n"], i["loop"], i["calls"])
+    elif k == "tape-disjoint":
+        cfg = dict(i["config"])
+        cfg["vol"] = tuple(cfg["vol"]); cfg["ratio"] = tuple(cfg["ratio"])
+        check_tape_disjoint(run, cfg, inject=list(i["uniforms"]), j=i["entry"], newval=i["new_value"])
+    elif k == "joint":
+        check_joint(run, tuple(i["volume"]), i["n"], i["numpy_seed"])
     elif k == "reconfigure":
         check_reconfigure(run, tuple(i["volume"]), i["steps"])
     elif k == "list-history":
